@@ -8,6 +8,7 @@ WT=/tmp/seedc-wt-$$
 git -C /repo worktree add -q "$WT" HEAD || exit 2
 if ! git -C "$WT" apply "$PATCH"; then echo "$PATCH PATCH-DOES-NOT-APPLY" >> "$LOG"; git -C /repo worktree remove --force "$WT"; exit 2; fi
 ( cd "$WT" && CARGO_TARGET_DIR=/tmp/seed-target timeout 3000 cargo nextest run --workspace --no-fail-fast --tool-config-file pb:/w/lib/nextest.toml --profile pb --test-threads 8 --offline > "$WT/nextest.log" 2>&1 )
-RES=$(python3 /verif/tools/baseline_compare.py /tmp/seed-target/nextest/pb/junit.xml | head -1)
+J="$WT/target/nextest/pb/junit.xml"; [ -f "$J" ] || J=/tmp/seed-target/nextest/pb/junit.xml
+RES=$(python3 /verif/tools/baseline_compare.py "$J" 2>&1 | head -1)
 echo "$PATCH suite: $RES" >> "$LOG"
 git -C /repo worktree remove --force "$WT"; rm -rf "$WT"
